@@ -13,12 +13,14 @@ mod gen;
 mod hooks;
 mod inst;
 mod interpose;
+mod lin;
 mod minimize;
 mod model;
 mod props;
 mod rng;
 mod sched;
 mod serial;
+mod thr;
 
 use case::{Case, Replay};
 use gen::Tier;
